@@ -27,6 +27,8 @@ class RefSim:
         self.Vfn = self.R.fast(self.R.V)
         self.ns = len(self.R.states)
         self.ne = ne
+        self.hybrid = bool(d.get("odes"))
+        self.purefn = self.R.fast(self.R.pure) if self.hybrid else None
         lims = d.get("limits") or [None] * self.ns
         self.lims = [(0, None) if l is None else tuple(l) for l in lims]
 
@@ -52,9 +54,22 @@ class RefSim:
                 return False
         return True
 
-    def apply(self, x, t, counts):
+    def apply(self, x, t, counts, tau=None):
+        """x + V*counts (+ explicit ODE terms * tau for a tau-leap of a hybrid model)"""
         V = self.V(x, t)
-        return [x[i] + sum(V[i][e] * counts[e] for e in range(self.ne)) for i in range(self.ns)]
+        xn = [x[i] + sum(V[i][e] * counts[e] for e in range(self.ne)) for i in range(self.ns)]
+        if self.hybrid and tau is not None:
+            p = self.purefn(x, t, self.theta)
+            xn = [xn[i] + float(p[i][0]) * tau for i in range(self.ns)]
+        return xn
+
+
+class Skip(Exception):
+    """an execution that is not judged (left the domain / cut at the draw horizon)"""
+
+    def __init__(self, why):
+        super().__init__(why)
+        self.why = why
 
 
 class Mismatch(Exception):
@@ -89,15 +104,18 @@ def ref_exact_step(rs, x, t, log, pos):
     return pos, w, clocks[w]
 
 
-def ref_path(rs, x0, t0, T, exact, log):
+def ref_path(rs, x0, t0, T, exact, log, pre_tau=None):
     """Replay the reference process against the draw log of the implementation.
     Returns dict(X, J, T, end) or raises Mismatch."""
-    x = [int(v) for v in x0]
+    x = [int(v) if float(v).is_integer() else float(v) for v in x0]
     t = float(t0)
     X, TT, J, DT = [list(x)], [t], [], []
     pos = 0
     end = "horizon"
     while t < T:
+        if T - t <= 1e-9 * (1 + abs(T)):
+            # the loop condition would be decided by rounding of the accumulated time
+            raise Skip("time-within-rounding-of-horizon")
         r = rs.rates(x, t)
         if any(v < 0 for v in r):
             raise Mismatch("harness-negative-rate", state=x, t=t, rates=r)
@@ -112,6 +130,8 @@ def ref_path(rs, x0, t0, T, exact, log):
                                got=[b[0] for b in blk], state=x, t=t)
             taus = [b[1] / r[e] for e, b in enumerate(blk) if r[e] > 0]
             tau = taus[0]
+            if pre_tau is not None and close(tau, pre_tau, 1e-12):
+                tau = pre_tau          # the fixed step itself, not the value inferred from lam/r
             if not (tau > 0 and math.isfinite(tau)):
                 raise Mismatch("tau-not-positive", tau=tau, state=x, t=t)
             for e, b in enumerate(blk):
@@ -119,7 +139,7 @@ def ref_path(rs, x0, t0, T, exact, log):
                     raise Mismatch("wrong-poisson-mean", event=e, want=tau * r[e], got=b[1], state=x, t=t)
             n = [int(b[2]) for b in blk]
             pos += rs.ne
-            xn = rs.apply(x, t, n)
+            xn = rs.apply(x, t, n, tau=tau)
             if rs.legal(xn):
                 x, t = xn, t + tau
                 X.append(list(x)); TT.append(t); J.append(n); DT.append(tau)
@@ -139,11 +159,11 @@ def ref_path(rs, x0, t0, T, exact, log):
     return {"X": X, "T": TT, "J": J, "DT": DT, "end": end}
 
 
-def check_raw_path(rs, x0, t0, T, exact, out, log):
+def check_raw_path(rs, x0, t0, T, exact, out, log, pre_tau=None):
     """out = (X, J, T) arrays of one run from solve_stochast(T scalar, full_output).
     Returns None or a Mismatch describing the first discrepancy."""
     try:
-        rp = ref_path(rs, x0, t0, T, exact, log)
+        rp = ref_path(rs, x0, t0, T, exact, log, pre_tau=pre_tau)
     except Mismatch as m:
         return m
     X, J, TT = out
@@ -168,7 +188,7 @@ def check_raw_path(rs, x0, t0, T, exact, out, log):
                 raise Mismatch("counts-not-natural", J=J.tolist())
             if exact and not np.all(J.sum(axis=1) == 1):
                 raise Mismatch("exact-not-one-event", J=J.tolist())
-            for k in range(nstep):
+            for k in range(nstep if not rs.hybrid else 0):
                 exp_dx = np.asarray(rs.apply(X[k].tolist(), TT[k], J[k].tolist())) - X[k]
                 if not np.array_equal(X[k + 1] - X[k], exp_dx):
                     raise Mismatch("dx-not-V-counts", step=k, dx=(X[k + 1] - X[k]).tolist(), want=exp_dx.tolist())
@@ -177,7 +197,8 @@ def check_raw_path(rs, x0, t0, T, exact, out, log):
         # equality with the reference path for the same answers
         if len(rp["X"]) != X.shape[0]:
             raise Mismatch("path-length", got=X.shape[0], want=len(rp["X"]), end=rp["end"])
-        if not np.array_equal(X, np.asarray(rp["X"])):
+        if not (np.allclose(X, np.asarray(rp["X"], float), rtol=0, atol=1e-9) if rs.hybrid
+                else np.array_equal(X, np.asarray(rp["X"]))):
             raise Mismatch("path-states", got=X.tolist(), want=rp["X"])
         if not np.allclose(TT, rp["T"], rtol=1e-12, atol=1e-12):
             raise Mismatch("path-times", got=TT.tolist(), want=rp["T"])
@@ -202,6 +223,9 @@ class Config:
         self.d, self.theta, self.x0, self.T, self.mode, self.t0 = d, list(theta), list(x0), T, mode, t0
         self.grid = grid
         self.name = name
+
+    def pre_tau(self):
+        return self.mode[1] if self.mode[0] == "tau_fixed" else None
 
     def key(self):
         return {"name": self.name, "def": self.d, "theta": self.theta, "x0": self.x0, "T": self.T,
@@ -338,21 +362,13 @@ def explore_config(args):
     return st
 
 
-class Skip(Exception):
-    """an execution that is not judged (left the domain / cut at the draw horizon)"""
-
-    def __init__(self, why):
-        super().__init__(why)
-        self.why = why
-
-
 def triage_error(cfg, rs, s):
     """An execution that did not return normally.  A draw-horizon cut is a violation only
     if the reference process had already terminated on the draws made so far."""
     exact = cfg.mode[0] == "exact"
     if s.error[0] == "horizon":
         try:
-            ref_path(rs, cfg.x0, cfg.t0, cfg.T, exact, s.log)
+            ref_path(rs, cfg.x0, cfg.t0, cfg.T, exact, s.log, pre_tau=cfg.pre_tau())
         except Mismatch as m:
             if m.what in ("missing-draw", "tau-draw-block"):
                 raise Skip("cut-at-draw-horizon")
@@ -372,7 +388,7 @@ def oracle_c04(cfg, rs, s):
         return Mismatch("harness-global-rng-touched")
     X, J, TT = s.out
     exact = cfg.mode[0] == "exact"
-    return check_raw_path(rs, cfg.x0, cfg.t0, cfg.T, exact, (X[0], J[0], TT[0]), s.log)
+    return check_raw_path(rs, cfg.x0, cfg.t0, cfg.T, exact, (X[0], J[0], TT[0]), s.log, pre_tau=cfg.pre_tau())
 
 
 ORACLES = {"c04": oracle_c04}
@@ -409,7 +425,7 @@ def l1_explore(args):
           "kernel": {}, "illegal_steps": 0, "tau_fallback_none": 0, "n_viol": 0, "sample": None,
           "capped_states": 0}
     try:
-        cfg = Config(d, theta, x0, 1.0, ("exact",), name=name)
+        cfg = Config(d, theta, x0[0] if isinstance(x0[0], (list, tuple)) else x0, 1.0, ("exact",), name=name)
         m, order = make_model(cfg)
         rs = RefSim(d, theta, order)
         m.get_ReactantMatrix()
@@ -427,8 +443,9 @@ def l1_explore(args):
         if len(st["violations"]) < 3:
             st["violations"].append({"what": what, "state": list(x), "detail": kw})
 
-    seen = {tuple(x0)}
-    frontier = [tuple(x0)]
+    starts = [tuple(v) for v in (x0 if isinstance(x0[0], (list, tuple)) else [x0])]
+    seen = set(starts)
+    frontier = list(starts)
     while frontier:
         nxt = []
         for xt in frontier:
@@ -535,7 +552,7 @@ def l1_explore(args):
                         if tm[0] == "tau_fixed" and tau > tm[1] * (1 + 1e-12):
                             viol("tau-exceeds-fixed-step", x, tau=tau, mode=tm)
                         n = [int(v_) for _k, _a, v_ in s.log]
-                        xn = rs.apply(x, t, n)
+                        xn = rs.apply(x, t, n, tau=tau)
                         try:
                             t_new, dt, x_new, jumps, success = s.ret
                         except Exception:
@@ -543,12 +560,13 @@ def l1_explore(args):
                             continue
                         if rs.legal(xn):
                             ok = (success is True and close(t_new, t + tau) and close(dt, tau)
-                                  and np.array_equal(np.asarray(x_new), np.asarray(xn, float))
+                                  and np.allclose(np.asarray(x_new, float), np.asarray(xn, float), rtol=0, atol=1e-9)
                                   and [int(j) for j in jumps] == n)
                             if not ok:
                                 viol("tau-step-result", x, answers=n, want={"x": xn, "t": t + tau},
                                      got={"x": np.asarray(x_new).tolist(), "t": t_new, "jumps": [int(j) for j in jumps], "success": success}, mode=tm)
-                            succ.add(tuple(int(v) for v in xn))
+                            if all(float(v).is_integer() for v in xn):
+                                succ.add(tuple(int(v) for v in xn))
                         else:
                             st["illegal_steps"] += 1
                             ok = (success is False and np.array_equal(np.asarray(x_new), xa) and t_new == t)
@@ -586,7 +604,7 @@ def oracle_c11(cfg, rs, s):
     # a refused step must leave state and time unchanged: the path continues from the same
     # state, so the reference path (which refuses the same steps) must agree
     exact = cfg.mode[0] == "exact"
-    return check_raw_path(rs, cfg.x0, cfg.t0, cfg.T, exact, (s.out[0][0], s.out[1][0], s.out[2][0]), s.log)
+    return check_raw_path(rs, cfg.x0, cfg.t0, cfg.T, exact, (s.out[0][0], s.out[1][0], s.out[2][0]), s.log, pre_tau=cfg.pre_tau())
 
 
 def oracle_c10(cfg, rs, s):
@@ -603,3 +621,82 @@ def oracle_c10(cfg, rs, s):
 
 ORACLES["c11"] = oracle_c11
 ORACLES["c10"] = oracle_c10
+
+
+# ----------------------------------------------------------------------------- gridded output (C15)
+def grid_expectation(rp, grid, V_apply, ne):
+    """expected rows/counts of exact-mode gridded output from a reference path"""
+    X, T, J = rp["X"], rp["T"], rp["J"]
+    rows = []
+    for g in grid:
+        k = 0
+        for i, tt in enumerate(T):
+            if tt <= g:
+                k = i
+        rows.append(X[k])
+    counts = []
+    for a, b in zip(grid[:-1], grid[1:]):
+        c = [0] * ne
+        for i, tt in enumerate(T[1:]):
+            if a < tt <= b:
+                for e in range(ne):
+                    c[e] += J[i][e]
+        counts.append(c)
+    return rows, counts
+
+
+def oracle_c15(cfg, rs, s):
+    if s.error is not None:
+        return triage_error(cfg, rs, s)
+    exact = cfg.mode[0] == "exact"
+    grid = [float(g) for g in cfg.grid]
+    try:
+        rp = ref_path(rs, cfg.x0, cfg.t0, grid[-1], exact, s.log, pre_tau=cfg.pre_tau())
+    except Mismatch as m:
+        return m
+    Xs, Js, tt = s.out
+    X = np.asarray(Xs[0], float)
+    Jm = np.asarray(Js[0], float)
+    try:
+        if not np.array_equal(np.asarray(tt, float), np.asarray(grid)):
+            raise Mismatch("returned-times-not-the-grid", got=np.asarray(tt).tolist())
+        if X.shape != (len(grid), rs.ns):
+            raise Mismatch("row-count", shape=X.shape, want=(len(grid), rs.ns))
+        if grid[0] == cfg.t0 and not np.array_equal(X[0], np.asarray(cfg.x0, float)):
+            raise Mismatch("first-row-not-x0", got=X[0].tolist())
+        if Jm.shape != (len(grid) - 1, rs.ne):
+            raise Mismatch("counts-shape", shape=Jm.shape, want=(len(grid) - 1, rs.ne))
+        # keep clear of coincidences between event and grid times (measure zero for real draws)
+        if exact:
+            for tv in rp["T"][1:]:
+                if any(abs(tv - g) <= 1e-12 * (1 + abs(g)) for g in grid):
+                    raise Skip("event-time-on-grid")
+        if exact:
+            rows, counts = grid_expectation(rp, grid, rs.apply, rs.ne)
+            if not np.array_equal(X, np.asarray(rows, float)):
+                k = int(np.argmax(np.any(X != np.asarray(rows, float), axis=1)))
+                raise Mismatch("row-not-path-state", k=k, t=grid[k], got=X[k].tolist(), want=rows[k], path_T=rp["T"][:12])
+            if not np.array_equal(Jm, np.asarray(counts, float)):
+                k = int(np.argmax(np.any(Jm != np.asarray(counts, float), axis=1)))
+                raise Mismatch("interval-counts", k=k, got=Jm[k].tolist(), want=counts[k], path_T=rp["T"][:12])
+            for k in range(len(grid) - 1):
+                dx = np.asarray(rs.apply(X[k].tolist(), grid[k], Jm[k].tolist())) - X[k]
+                if not np.allclose(X[k + 1] - X[k], dx, atol=1e-9):
+                    raise Mismatch("rows-differ-from-V-counts", k=k, dx=(X[k + 1] - X[k]).tolist(), want=dx.tolist())
+        else:
+            if np.any(Jm < 0):
+                raise Mismatch("negative-counts", J=Jm.tolist())
+            # total events reported = events of the underlying leaps that ended inside the grid span
+            tot = [0] * rs.ne
+            for i, tv in enumerate(rp["T"][1:]):
+                if grid[0] <= tv <= grid[-1]:
+                    for e in range(rs.ne):
+                        tot[e] += rp["J"][i][e]
+            if not np.allclose(Jm.sum(axis=0), tot):
+                raise Mismatch("tau-total-counts", got=Jm.sum(axis=0).tolist(), want=tot)
+    except Mismatch as m:
+        return m
+    return None
+
+
+ORACLES["c15"] = oracle_c15
